@@ -50,7 +50,7 @@ def walk_query(rng, doc, g, max_seg=4, filters=False):
                     if isinstance(x, list) and -len(x) <= i < len(x):
                         nxt.append(x[i])
             else:
-                sl = g.slice_()
+                sl = g.slice_() if rng.random() < 0.4 else doc_slice(rng, len(v), g)
                 out.append((".." if desc else "") + "[" + sl + "]")
                 nxt = [y for x in cur if isinstance(x, list) for y in x]
         elif k < 0.8 or not filters:
@@ -61,6 +61,18 @@ def walk_query(rng, doc, g, max_seg=4, filters=False):
             nxt = [y for x in cur for y in (x.values() if isinstance(x, dict) else x if isinstance(x, list) else [])]
         cur = nxt
     return "".join(out)
+
+
+def doc_slice(rng, n, g):
+    """a slice whose bounds sit at the array's own boundaries (0, n-1, n, n+1, 2n and their negatives), any step sign"""
+    bounds = [0, 1, n - 1, n, n + 1, 2 * n, -1, -n, -n - 1, -n + 1, -2 * n, 100, -100]
+    a = str(rng.choice(bounds)) if rng.random() < 0.7 else ""
+    b = str(rng.choice(bounds)) if rng.random() < 0.6 else ""
+    out = a + g.S() + ":" + g.S() + b
+    if rng.random() < 0.75:
+        c = str(rng.choice([-1, -1, -2, -3, 1, 2, 3, 0, -n, n])) if rng.random() < 0.9 else ""
+        out += g.S() + ":" + (g.S() + c if c else "")
+    return out
 
 
 KIND_CHILDREN = [0, False, "", None, [], {}, 1, True, "a", 0.0, -1, [0], {"a": 0}, "hello", "ab"]
@@ -193,6 +205,51 @@ def explore_c02(rng, tier, res, deep=False):
     ]
     cases.extend(fixed)
     sweep(res, PROBE_ENV, cases, "C02", expect_valid=True)
+    reuse_after_edit(rng, res, PROBE_ENV, cases[:: max(1, len(cases) // (300 if tier == "quick" and not deep else 3000))], "C02")
+
+
+def reuse_after_edit(rng, res, envdesc, cases, prop):
+    """`$` and `@` denote the query argument / current node of THIS application: compile once, apply, edit the very
+    same container object in place, apply again — the second nodelist must be the RFC nodelist of the edited value"""
+    import copy
+
+    import checks_api
+
+    env = real.make_env(envdesc)
+    eenv = real.enc_env(envdesc)
+    lines, got = [], []
+    for q, doc in cases:
+        try:
+            _line, compiled = real.observe_compile(env, q)
+        except RecursionError:
+            continue
+        if compiled is None or not isinstance(doc, (dict, list)):
+            continue
+        live = copy.deepcopy(doc)
+        try:
+            real.observe_stream(compiled, live)
+        except RecursionError:
+            continue
+        for _ in range(2):
+            checks_api.edit_in_place(rng, live)
+            snap = copy.deepcopy(live)
+            got.append((q, snap, real.observe_stream(compiled, live)))
+            lines.append(f"rfc.query\t{eenv}\t{wire.enc_str(q)}\t{wire.enc_json(snap)}")
+    if not lines:
+        return
+    import model
+
+    for (q, snap, rl), rep in zip(got, model.run_batch_parallel(lines)):
+        res.evaluations += 1
+        if rep.split("\t")[0] != "valid" or not (rl.startswith("stream\t") and rl.endswith("\tend")):
+            continue
+        want = rep.split("\t", 1)[1] if "\t" in rep else ""
+        if rl.split("\t")[1] != want:
+            res.violations.append({"property": prop, "query": q, "document": snap, "env": envdesc,
+                                   "observed": rl.split("\t")[1][:300], "expected": want[:300],
+                                   "history": "compile once; apply; edit the same container object in place; apply again (second result shown)",
+                                   "what": "a reused compiled query does not return the RFC 9535 nodelist of the value it is applied to"})
+    res.count("reuse-after-edit", len(lines))
 
 
 # ---------------------------------------------------------------------------------------------
